@@ -249,7 +249,7 @@ FALLBACK = {
     "multi_state": [("multi_logs", ["C03", "C02"], "lines printed through the MultiProgress or a member bar ('' / text / two lines) after each of 3 operations out of 6, three unfinished bars: 1944 states"),
                     ("multi_rate", ["C05"], "see bar_draw"),
                     ("multi_order", ["C02"], "documented order after up to 5 add / insert / insert_from_back / insert_before / insert_after / remove operations: 13204 states"),
-                    ("multi_finish", ["C04", "C02"], "finished bars of a MultiProgress stay, in order, for every finish and drop order of three bars"),
+                    ("multi_finish", ["C04", "C02", "C19", "C03"], "finished bars of a MultiProgress (one-row and wrapping) stay, in order, for every finish and drop order of three bars"),
                     ("io_fail_multi", ["C18"], "MultiProgress calls under a failing terminal")],
     "c07_position": [("bar_hidden", ["C06", "C07"], "getters after operation histories, hidden vs visible")],
     "c17_adaptors": [("iter_adaptors", ["C17"], "external / reverse / internal iteration (8 modes x 3 lengths, second handle on the bar), Read with 5 chunk scripts x 3 buffer sizes incl. errors, read_exact, read_to_string, interleaved fill_buf / consume, 9 seeks x 2 bar offsets, Write / write_vectored with 4 chunk scripts")],
